@@ -91,9 +91,12 @@ func conc(args []string) {
 			lines := append([]drive.Line(nil), base.Lines...)
 			visit := func(prefix []string, r *drive.ConcResult) error {
 				ln := drive.Line{Case: cases[i].N, Conc: true, Ops: cases[i].Par, Ress: r.Ress, CSeq: r.CSeq, Chain: r.Chain,
-					St: map[string]drive.LedgerObs{"l1": r.Post}, Sched: strings.Join(prefix, ","),
+					St: r.Post, Sched: strings.Join(prefix, ","),
 					Prop: drive.PropOfFamily(cases[i].Family), Fam: cases[i].Family}
 				ln.Op.L = "l1"
+				if cases[i].Target != "" {
+					ln.Op.L = cases[i].Target
+				}
 				lines = append(lines, ln)
 				if len(r.Log) > maxDec[i] {
 					maxDec[i] = len(r.Log)
